@@ -28,7 +28,7 @@ func recvIn(names ...string) func(fd *ast.FuncDecl, recv *types.Named) bool {
 func init() {
 	register(&Rule{
 		ID: "R01.5", Props: []string{"C01"}, Engine: "lockstate (guarded-by)",
-		Text: "the in-memory image of a sector shared by two adjacent objects (sharedSector.data) is read and written – including the BlockDevice.WriteAt that persists it – only while that sector's mutex is held, and the mutex is released on every exit",
+		Text:  "the in-memory image of a sector shared by two adjacent objects (sharedSector.data) is read and written – including the BlockDevice.WriteAt that persists it – only while that sector's mutex is held, and the mutex is released on every exit",
 		Floor: 5, MustExist: true,
 		Run: func(c *Ctx) {
 			n := c.LookupType(localRel, "sharedSector")
@@ -53,13 +53,13 @@ func init() {
 	})
 	register(&Rule{
 		ID: "R04.4", Props: []string{"C04"}, Engine: "lockstate (guarded-by) + guard",
-		Text: "the allocator's free list is touched only under the allocator's mutex; a block's region is put back on the free list only in blockDeviceBackedBlock.Release on the edge where the use count dropped to exactly zero",
+		Text:  "the allocator's free list is touched only under the allocator's mutex; a block's region is put back on the free list only in blockDeviceBackedBlock.Release on the edge where the use count dropped to exactly zero",
 		Floor: 6, MustExist: true,
 		Run: runR044,
 	})
 	register(&Rule{
-		ID: "R04.3", Props: []string{"C04", "C01"}, Engine: "order (path automaton) + flow",
-		Text: "use-count pairing: blockDeviceBackedBlock.Put takes one reference and the writer it returns drops exactly one on every path (also when ingesting or flushing fails); blockDeviceBackedBlock.Get takes one reference and hands the block to a blockDeviceBackedBlockReader, whose Close drops exactly one and clears its field",
+		ID: "R04.3", Props: []string{"C04", "C01", "C07"}, Engine: "order (path automaton) + flow",
+		Text:  "use-count pairing: blockDeviceBackedBlock.Put takes one reference and the writer it returns drops exactly one on every path (also when ingesting or flushing fails); blockDeviceBackedBlock.Get takes one reference and hands the block to a blockDeviceBackedBlockReader, whose Close drops exactly one and clears its field",
 		Floor: 4, MustExist: true,
 		Run: runR043,
 	})
@@ -247,7 +247,7 @@ func runR043(c *Ctx) {
 func init() {
 	register(&Rule{
 		ID: "R01.8", Props: []string{"C01"}, Engine: "flow (sibling agreement of slices)",
-		Text: "the capacity test and the placement agree on the state they depend on: every field that determines where blockDeviceBackedBlock.Put places an object (the backward slice of the offset its finalizer reports: sector cursor, shared-sector fill, sector size) is also in the backward slice of HasSpace's verdict; and no writer handed to Buffer.IntoWriter in package local is a bytes.Buffer over block storage (a write into a block must be bounded and must never reallocate)",
+		Text:  "the capacity test and the placement agree on the state they depend on: every field that determines where blockDeviceBackedBlock.Put places an object (the backward slice of the offset its finalizer reports: sector cursor, shared-sector fill, sector size) is also in the backward slice of HasSpace's verdict; and no writer handed to Buffer.IntoWriter in package local is a bytes.Buffer over block storage (a write into a block must be bounded and must never reallocate)",
 		Floor: 2, MustExist: true,
 		Run: runR018,
 	})
